@@ -139,7 +139,11 @@ class MapPacket(Packet):
     def write_fields(self, packet_buffer):
         VarInt.send(self.map_id, packet_buffer)
         Byte.send(self.scale, packet_buffer)
-        if self.context.protocol_later_eq(107):
+        if self.context.protocol_in_range(107, PRE | 6):
+            Boolean.send(self.is_tracking_position, packet_buffer)
+        if self.context.protocol_later_eq(452):
+            Boolean.send(self.is_locked, packet_buffer)
+        if self.context.protocol_later_eq(PRE | 6):
             Boolean.send(self.is_tracking_position, packet_buffer)
 
         VarInt.send(len(self.icons), packet_buffer)
